@@ -203,6 +203,8 @@ def run(ctx):
                                                                    150 if ctx.quick else 600))
     nin_ = _gcm.inert_arguments(ctx, rng, 3 if ctx.quick else 6)
     ctx.counted('arguments that cannot change the answer (inert exclude=, root spelling, NOUNIQUE)', nin_, nin_ // 2, [{'pattern': '**', 'exclude': 'zz-no-such-name*'}])
+    nfr_ = _gcm.fringe_names(ctx)
+    ctx.counted('non-ASCII entry names: exact spellings are found, the walk stays inside the matcher', nfr_, nfr_ // 2, [{'entry': '\u0130stanbul.txt', 'flags': 'IGNORECASE'}])
     ntn_ = _gcm.trailing_newline_names(ctx)
     ctx.counted('names ending in a line feed: walk (str, bytes, dir_fd, descriptor 0, pathlib) vs REALPATH matcher', ntn_, ntn_ // 2, [{'pattern': '[b]', 'entry': 'b\\n'}])
     nug_ = _gcm.unclosed_group_paths(ctx)
@@ -210,7 +212,10 @@ def run(ctx):
     nsp_ = _gcm.spelling_equiv(ctx, rng, 2 if ctx.quick else 8, 20 if ctx.quick else 80)
     ctx.counted('walk and REALPATH matcher under respelled separator runs', nsp_, nsp_ // 2, [{'pattern': 'sub\\//**/f*', 'same_as': 'sub/**/f*'}])
     from wcmatch import glob as G2
-    common.replay_witnesses(ctx, [])
+    common.replay_witnesses(ctx, [
+        ('C04-icase-lower-vs-regex', "under IGNORECASE glob('i\\u0307x') returns the entry '\\u0130x' that globmatch rejects, and glob('s') misses the entry '\\u017f' that globmatch accepts (str.lower() in the walker, re.IGNORECASE in the matcher)",
+         _gcm.icase_lower_vs_regex_witness),
+    ])
     return ctx.finish(RULE)
 
 
